@@ -168,6 +168,14 @@ def resignOp (kind : String) (b sig : List UInt8) : String :=
   | none => "err malformed"
   | some out => OfferMirror.resignVerdict p b sig ++ " " ++ hex out
 
+/-- `Unsigned*::try_from(b).write()` under the translated split range and write plan -/
+def uwriteOp (kind : String) (b : List UInt8) : String :=
+  let r := if kind == "req" then OfferMirror.rewriteUnsigned C18Mirror.invreqSplitIn C18Mirror.invreqUnsignedWrite b
+           else OfferMirror.rewriteUnsigned C18Mirror.invoiceSplitIn C18Mirror.invoiceUnsignedWrite b
+  match r with
+  | none => "err malformed"
+  | some out => hex out
+
 end C18
 
 def c18b11 : Drv where
@@ -201,6 +209,7 @@ def c18b12 : Drv where
     | ["offerverify", key, nonce, tbl, b] => ((), C18.offerVerifyOp (unhex key) (unhex nonce) tbl (unhex b))
     | ["mirror", kind, src, payer, own, expOwn, sig] =>
       ((), C18.mirrorOp kind (unhex src) (unhex payer) (unhex own) (unhex expOwn) (unhex sig))
+    | ["uwrite", kind, b] => ((), C18.uwriteOp kind (unhex b))
     | ["resign", kind, b, sig] => ((), C18.resignOp kind (unhex b) (unhex sig))
     | ["mkeys", k, key, iv, md, pk, tbl, tlv] => ((), C18.mkeys (k == "p") (unhex key) (unhex iv) (unhex md) (unhex pk) tbl (unhex tlv))
     | ["mhmac", k, key, iv, md, tlv] => ((), C18.mhmac (k == "p") (unhex key) (unhex iv) (unhex md) (unhex tlv))
